@@ -174,7 +174,7 @@ func closeTo(got, want, scale float64) bool {
 }
 
 // NFan is the number of consumer topologies of weightedRoot.
-const NFan = 7
+const NFan = 8
 
 // crowdFactors: dyadic factors that sum to exactly 1 (n of them, 7 <= n <= 16).
 func crowdFactors(n int) []float64 {
@@ -200,9 +200,22 @@ func crowdFactors(n int) []float64 {
 //   5  as 4, summed pairwise    (a wide, shallow graph)
 //   6  (2*(0.5*(...(y))))*G     a tail of 2*35..2*45 scalings: more than 64 operations between
 //                               y and the root
+//   7  y*(G-1) + y              y is the second operand of the final Add (whose rule hands the
+//                               upstream gradient object on as it is) and has another consumer
 func weightedRoot(y tensor.Tensor, shape []int, g []float64, fan int) (tensor.Tensor, error) {
 	if fan <= 0 || fan >= NFan {
 		return y.Mul(lib.MustNew(shape, g, false))
+	}
+	if fan == 7 {
+		g1 := make([]float64, len(g))
+		for i := range g {
+			g1[i] = g[i] - 1
+		}
+		s, err := y.Mul(lib.MustNew(shape, g1, false))
+		if err != nil {
+			return nil, err
+		}
+		return s.Add(y)
 	}
 	if fan == 6 {
 		t := y
@@ -275,6 +288,25 @@ func weightedRoot(y tensor.Tensor, shape []int, g []float64, fan int) (tensor.Te
 		return nil, err
 	}
 	return a.Add(bb)
+}
+
+// rootGradientIsOnes: after BackPropagate(z) the root holds the seed - a gradient of its own
+// shape that is 1 everywhere - and keeps holding it (nothing accumulates into the root).
+func rootGradientIsOnes(z tensor.Tensor) *Failure {
+	g := z.Gradient()
+	if g == nil {
+		return failf("the back-propagated root has no gradient")
+	}
+	gs, gv, err := lib.Read(g)
+	if err != nil || !ref.EqShape(gs, z.Shape()) {
+		return failf("the root's gradient has shape %v, the root %v (%v)", gs, z.Shape(), err)
+	}
+	for k, v := range gv {
+		if v != 1 {
+			return failf("the root's gradient [%d] = %v after the back-propagation, expected the seed 1", k, v)
+		}
+	}
+	return nil
 }
 
 func drawFan(t *rapid.T) int {
